@@ -153,7 +153,24 @@ def main():
             continue
     events2, meta2 = conversion_events(chk, mpmath, g, len(events))
     events += events2; meta.update(meta2)
+    events3, meta3 = function_events(chk, mpmath, g, len(events))
+    events += events3; meta.update(meta3)
+    # pinned representatives of the known findings (re-executed on every run)
+    pinned = {}
+    for k in chk.known:
+        if k.get("status") == "known" and "rep" in k:
+            rep = k["rep"]
+            made = fun_event(mpmath, g, len(events), rep["f"], rep["lvl"], rep["p"], tuple(tuple(q) for q in rep["s"]),
+                             tuple(tuple(q) for q in rep["t"]) if rep.get("t") else None, False)
+            if made is None:
+                chk.machinery("pinned representative of %s could not be executed" % k["key"])
+            events.append(made[0]); meta[made[0]["id"]] = dict(made[1], pinned=True); pinned[made[0]["id"]] = k
     bad = tlc.judge(events, tag=PROP)
+    for eid, k in pinned.items():
+        chk.known_line(k, "post" in bad.get(eid, []))
+    und = sum(1 for cl in bad.values() if "undecided" in cl)
+    chk.notes.append("%d function events (spec enclosures: %s; relational: %s); %d events had a member point the enclosure could not place (undecided, not judged)"
+                     % (len(events3), ", ".join(ENCL_FUNCS), ", ".join(REL_FUNCS), und))
     for ev in events:
         chk.count(); chk.distinct(json.dumps(meta[ev["id"]], sort_keys=True), ev["o"]["k"] != "x")
     chk.add_traces(len(events))
@@ -163,6 +180,14 @@ def main():
     for i, clauses in sorted(bad.items()):
         if "post" in clauses:
             m = meta[i]
+            if m.get("pinned"):
+                continue
+            if m.get("fun"):
+                bucket = "raises" if m["out"] is None else outside_bucket(mpmath, m["f"], m["p"], [tuple(q) for q in m["out"]], [tuple(q) for q in m["pts"]], [tuple(q) for q in m["pts2"]])
+                mm = {k: v for k, v in m.items() if k not in ("pts", "pts2", "fun", "pinned")}
+                chk.violation("%s/%s/contain/%s" % (m["f"], m["lvl"], bucket),
+                              "interval function result does not contain the value at a member point (outside by %s): %s" % (bucket, json.dumps(core_abbrev(mm))[:300]), byid[i])
+                continue
             chk.violation("%s/%s/contain" % (m["f"], m["lvl"]), "interval result does not contain an exact point result: %s" % json.dumps(core_abbrev(m))[:300], byid[i])
     chk.cov["rule"] = ("seeded intervals (point, narrow, wide, straddling, half-infinite, endpoints longer than the precision) with sample member "
                        "points incl. all finite endpoints; distinct = (op, level, intervals, precision)")
@@ -174,6 +199,202 @@ def main():
 def core_abbrev(m):
     from .. import arith
     return arith.abbreviate(m)
+
+
+def moderate_interval(g, p, maxtop, positive=False, mintop=-40):
+    """finite interval whose endpoints have magnitude below 2^maxtop (exponents clamped), optionally inside (0, inf)"""
+    r = g.r
+    def clamp(t):
+        if not t[1]:
+            return t
+        top = max(mintop, min(maxtop, t[2] + t[3]))
+        return ((0 if positive else t[0]), t[1], top - t[3], t[3])
+    def key(t):
+        if t == gen.FZERO:
+            return fractions.Fraction(0)
+        n, e = gen.value(t)
+        return fractions.Fraction(n) * fractions.Fraction(2) ** e
+    while True:
+        v = interval(g, p)
+        if v[0] in (gen.FNINF,) or v[1] in (gen.FINF,):
+            continue
+        a, b = clamp(v[0]), clamp(v[1])
+        if positive and (a == gen.FZERO or b == gen.FZERO):
+            continue
+        return tuple(sorted([a, b], key=key))
+
+
+def ref_interval(mp, y, q):
+    """the library's point value y (computed at q bits) widened by 2^(12-q) relative: a relational reference enclosure"""
+    if y == 0:
+        return None
+    d = abs(y) * mp.mpf(2) ** (12 - q)
+    saved = mp.prec
+    mp.prec = q + 20
+    try:
+        return ((y - d)._mpf_, (y + d)._mpf_)
+    finally:
+        mp.prec = saved
+
+
+def outside_bucket(mpmath, f, p, out, pts, pts2=None):
+    """classification of a containment violation (used for reporting and known-finding keys only): how far outside
+    the returned interval does the library's own high-precision point value lie, in ulps (at precision p) of
+    the violated endpoint?  Returns a bucket name."""
+    mp = mpmath.mp
+    saved = mp.prec
+    mp.prec = 3 * p + 300
+    worst = mp.mpf(0)
+    try:
+        a, b = mp.make_mpf(out[0]), mp.make_mpf(out[1])
+        if a > b:
+            return "lower>upper"
+        for i, q in enumerate(pts):
+            X = mp.make_mpf(q)
+            try:
+                if f == "atan2":
+                    y = mp.atan2(X, mp.make_mpf(pts2[i]))
+                elif f == "rpow":
+                    y = X ** mp.make_mpf(pts2[i])
+                elif f == "log":
+                    y = mp.log(X)
+                else:
+                    y = getattr(mp, f)(X)
+            except (ZeroDivisionError, ValueError):
+                continue
+            if hasattr(y, "_mpc_") or not mp.isfinite(y):
+                continue
+            for end, d in ((a, a - y), (b, y - b)):
+                if mp.isfinite(end) and d > 0:
+                    ulp = mp.mpf(2) ** (mp.mag(end) - p) if end != 0 else mp.mpf(2) ** (mp.mag(y) - p)
+                    worst = max(worst, d / ulp)
+        if worst == 0:
+            return "not-reproduced-by-library-reference"
+        for name, lim in (("<2^-10ulp", mp.mpf(2) ** -10), ("<2^-3ulp", mp.mpf(2) ** -3), ("<=1ulp", 1), ("<=2ulp", 2)):
+            if worst <= lim:
+                return name
+        return ">2ulp"
+    finally:
+        mp.prec = saved
+
+
+ENCL_FUNCS = ["exp", "log", "sin", "cos", "tan", "atan2"]
+REL_FUNCS = ["gamma", "rgamma", "loggamma", "factorial", "rpow"]
+
+
+def fun_event(mpmath, g, eid, f, lvl, p, s, t, mayraise):
+    """run one interval function call and build its ivfun / ivrel event; returns (event, meta) or None"""
+    iv, mp, lm = mpmath.iv, mpmath.mp, mpmath.libmp
+    iv.prec = p
+    try:
+        S = iv.make_mpf(s)
+        if f == "atan2":
+            out = lm.mpi_atan2(s, t, p) if lvl == "libmp" else iv.atan2(S, iv.make_mpf(t))._mpi_
+        elif f == "rpow":
+            out = lm.mpi_pow(s, t, p) if lvl == "libmp" else (S ** iv.make_mpf(t))._mpi_
+        elif lvl == "libmp":
+            out = getattr(lm, "mpi_" + f)(s, p)
+        else:
+            out = getattr(iv, f)(S)
+            out = out._mpi_ if hasattr(out, "_mpi_") else None
+        if out is None:
+            return None
+    except (ZeroDivisionError, ValueError, NotImplementedError, lm.ComplexResult) as e:
+        out = e
+    finally:
+        iv.prec = 53
+    xs = points(g, s, p, k=2)
+    ys = points(g, t, p, k=1) if t else []
+    pairs = []
+    try:
+        o = enc.exc(out) if isinstance(out, BaseException) else enc.v(out)
+        if f in ENCL_FUNCS:
+            w = p + 70 + (30 if f in ("sin", "cos", "tan") else 0)
+            if f == "log":
+                xs = [q for q in xs if q[1] and q[0] == 0]
+            if f == "atan2":
+                # (y, x) pairs off the branch cut and the origin
+                pairs = [(a, b) for a in xs for b in ys if not (a == gen.FZERO and (b == gen.FZERO or b[0] == 1))][:8]
+                x = {"f": f, "w": w, "xs": [enc.f(a) for a, b in pairs], "ys": [enc.f(b) for a, b in pairs], "mayraise": mayraise}
+            else:
+                x = {"f": f, "w": w, "xs": [enc.f(q) for q in xs], "ys": [], "mayraise": mayraise}
+            if not x["xs"] and not isinstance(out, BaseException):
+                return None
+            event = enc.event(eid, "ivfun", [enc.v(s)], p, "n", o, pb=0, x=x)
+        else:
+            q = 3 * p + 200
+            refs = []
+            mp.prec = q
+            try:
+                for a in xs:
+                    X = mp.make_mpf(a)
+                    for b in (ys or [None]):
+                        try:
+                            if f == "rpow":
+                                y = X ** mp.make_mpf(b)
+                            elif f == "loggamma" and X <= 0:
+                                continue
+                            else:
+                                if X <= 0 and X == mp.floor(X) and f != "rgamma":
+                                    continue                          # a pole
+                                y = getattr(mp, f)(X)
+                        except (ZeroDivisionError, ValueError):
+                            continue
+                        if not mp.isfinite(y) or hasattr(y, "_mpc_"):
+                            continue
+                        if y == 0:
+                            refs.append((gen.FZERO, gen.FZERO))
+                        else:
+                            refs.append(ref_interval(mp, y, q))
+            finally:
+                mp.prec = 53
+            if not refs and not isinstance(out, BaseException):
+                return None
+            x = {"f": f, "refs": [enc.v(v) for v in refs[:8]], "mayraise": mayraise or f == "rpow"}
+            event = enc.event(eid, "ivrel", [enc.v(s)] + ([enc.v(t)] if t else []), p, "n", o, pb=0, x=x)
+        m = {"f": f, "lvl": lvl, "p": p, "s": [list(map(int, q)) for q in s], "t": [list(map(int, q)) for q in t] if t else [], "n": 0,
+             "fun": True, "pts": [list(map(int, a)) for a, b in pairs] if f == "atan2" else [list(map(int, a)) for a in xs for b in (ys or [None])],
+             "pts2": [list(map(int, b)) for a, b in pairs] if f == "atan2" else [list(map(int, b)) for a in xs for b in ys],
+             "out": [list(map(int, q)) for q in out] if not isinstance(out, BaseException) else None}
+        return event, m
+    except enc.EncodeRange:
+        return None
+
+
+def function_events(chk, mpmath, g, start, n=None):
+    """exp, log, sin, cos, tan, atan2 of intervals: member points judged by TLC against the spec's series
+    enclosures (ivfun).  gamma, rgamma, loggamma, factorial and real powers: member points judged against
+    the library's own point value at a much higher precision (ivrel, relational)."""
+    r = g.r
+    iv, mp, lm = mpmath.iv, mpmath.mp, mpmath.libmp
+    events, meta = [], {}
+    for k in range(n or chk.pick(500, 20000)):
+        p = r.choice([10, 24, 53, 53, 100, r.randint(9, 160)])
+        f = r.choice(ENCL_FUNCS + ENCL_FUNCS + REL_FUNCS)
+        iv.prec = p
+        mayraise = False
+        t = None
+        if f == "log":
+            s = moderate_interval(g, p, 200, positive=r.random() < 0.85, mintop=-200)
+            mayraise = s[0][0] == 1 or s[0] == gen.FZERO
+        elif f == "exp":
+            s = moderate_interval(g, p, 12)
+        elif f in ("sin", "cos", "tan"):
+            s = moderate_interval(g, p, r.choice([3, 3, 8, 20]))
+        elif f == "atan2":
+            s = moderate_interval(g, p, 30); t = moderate_interval(g, p, 30)       # y, x
+        elif f == "rpow":
+            s = moderate_interval(g, p, 8, positive=True, mintop=-8); t = moderate_interval(g, p, 4)
+        elif f == "loggamma":
+            s = moderate_interval(g, p, 10, positive=True, mintop=-10)
+        else:
+            s = moderate_interval(g, p, 7, positive=r.random() < 0.7, mintop=-10)
+            mayraise = s[0][0] == 1 or s[0] == gen.FZERO
+        lvl = r.choice(["libmp", "ctx"])
+        made = fun_event(mpmath, g, start + len(events), f, lvl, p, s, t, mayraise)
+        if made is not None:
+            events.append(made[0]); meta[made[0]["id"]] = made[1]
+    return events, meta
 
 
 def conversion_events(chk, mpmath, g, start):
